@@ -16,6 +16,7 @@ import (
 	"io"
 	"net"
 	"sort"
+	"strings"
 	"sync"
 	"sync/atomic"
 	"time"
@@ -117,11 +118,28 @@ func (a *VerifC18Adm) SeenSkewedPeers(k int, skew time.Duration) time.Duration {
 // outbound) whose remote address is ip:port, attaches the in-memory connection and waits for the
 // handshake of package peer to finish (id assigned, version known).  Returns a handle.
 func (a *VerifC18Adm) NewPeer(kind byte, ip string, port int) (int, error) {
+	h, _, err := a.newPeer(kind, ip, port, false)
+	return h, err
+}
+
+// NewPeerAddInListener is NewPeer, but the add message is handled INSIDE the OnVersion listener: the
+// real handleAddPeerMsg runs while package peer is still in handleVersionMessage - an order the real
+// peerHandler can produce, since AddPeer queues the message from the listener and the handler goroutine
+// may take it at once.  Returns the handler's decision.
+func (a *VerifC18Adm) NewPeerAddInListener(kind byte, ip string, port int) (int, bool, error) {
+	return a.newPeer(kind, ip, port, true)
+}
+
+func (a *VerifC18Adm) newPeer(kind byte, ip string, port int, addInListener bool) (int, bool, error) {
+	decision := false
 	sp := newServerPeer(a.s, kind == 'p', &a.log)
 	verCh := make(chan struct{}, 1)
 	cfg := &peer.Config{
 		Listeners: peer.MessageListeners{
 			OnVersion: func(_ *peer.Peer, _ *wire.MsgVersion) *wire.MsgReject {
+				if addInListener {
+					decision = a.s.handleAddPeerMsg(a.state, sp)
+				}
 				select {
 				case verCh <- struct{}{}:
 				default:
@@ -137,16 +155,22 @@ func (a *VerifC18Adm) NewPeer(kind byte, ip string, port int) (int, error) {
 		UserAgentVersion: "0",
 		TrickleInterval:  time.Hour,
 	}
-	raddr := &net.TCPAddr{IP: net.ParseIP(ip), Port: port}
+	// an IPv6 zone ("fe80::1%eth0") travels in the address string, as it does in a real RemoteAddr
+	zone := ""
+	bare := ip
+	if i := strings.IndexByte(ip, '%'); i >= 0 {
+		bare, zone = ip[:i], ip[i+1:]
+	}
+	raddr := &net.TCPAddr{IP: net.ParseIP(bare), Port: port, Zone: zone}
 	if raddr.IP == nil {
-		return -1, fmt.Errorf("bad ip %q", ip)
+		return -1, false, fmt.Errorf("bad ip %q", ip)
 	}
 	if kind == 'i' {
 		sp.Peer = peer.NewInboundPeer(cfg)
 	} else {
 		p, err := peer.NewOutboundPeer(cfg, net.JoinHostPort(ip, fmt.Sprint(port)))
 		if err != nil {
-			return -1, err
+			return -1, false, err
 		}
 		sp.Peer = p
 	}
@@ -157,10 +181,10 @@ func (a *VerifC18Adm) NewPeer(kind byte, ip string, port int) (int, error) {
 	ver := wire.NewMsgVersion(me, you, atomic.AddUint64(&verifC18Nonce, 1), 0)
 	ver.Services = wire.SFspv
 	if err := wire.WriteMessage(&buf, ver, wire.ProtocolVersion, chaincfg.TestNet3Params.Net); err != nil {
-		return -1, err
+		return -1, false, err
 	}
 	if err := wire.WriteMessage(&buf, wire.NewMsgVerAck(), wire.ProtocolVersion, chaincfg.TestNet3Params.Net); err != nil {
-		return -1, err
+		return -1, false, err
 	}
 	conn := &verifC18Conn{rd: bytes.NewReader(buf.Bytes()), closed: make(chan struct{}), raddr: raddr}
 	sp.AssociateConnection(conn)
@@ -168,14 +192,17 @@ func (a *VerifC18Adm) NewPeer(kind byte, ip string, port int) (int, error) {
 	case <-verCh:
 	case <-time.After(10 * time.Second):
 		sp.Disconnect()
-		return -1, fmt.Errorf("handshake timeout")
+		return -1, false, fmt.Errorf("handshake timeout")
+	}
+	for i := 0; i < 20000 && (!sp.VersionKnown() || sp.ID() == 0); i++ {
+		time.Sleep(100 * time.Microsecond) // the listener runs inside handleVersionMessage; let it finish
 	}
 	if !sp.VersionKnown() || sp.ID() == 0 {
 		sp.Disconnect()
-		return -1, fmt.Errorf("handshake incomplete")
+		return -1, false, fmt.Errorf("handshake incomplete")
 	}
 	a.peers = append(a.peers, sp)
-	return len(a.peers) - 1, nil
+	return len(a.peers) - 1, decision, nil
 }
 
 // PeerID returns the id package peer assigned to the handle.
